@@ -2,6 +2,7 @@ import GoUefi.Gen
 import GoUefi.Properties.C03
 import GoUefi.Properties.C01g
 import GoUefi.Properties.C10g
+import GoUefi.Properties.C04g
 import GoUefi.Model.Authenticode
 import GoUefi.Lemmas.GenPe
 /-!
@@ -26,14 +27,21 @@ The receiver is the generated structure `authenticode.PECOFFBinary`:
 * `hashContent : ReaderAtRef` — a `SizeReaderAt` over the caller's reader: a reference that the translated code can
   only hand to the external `makeSectionReader`.
 Externals (fields of `authenticode.Ext`, universally quantified in every theorem): `SignAuthenticode`,
-`ParseAuthenticode`, `(*Authenticode).verifyDigest`, `makeSectionReader`, and the digest function of the standard
-library `crypto_Hash_Sum` (what `alg.New()` + writes + `Sum(nil)` compute).  They are functions of their arguments AS THE
-TRANSLATION REPRESENTS THEM: an `Authenticode` value keeps `Pkcs` and `Digest`, its `Algid` is `Opaque`; a reader
-argument is the bytes it delivers, and what the callee leaves of a reader made for that one call is dropped; the CLOSURE
-that `Verify` hands to `verifyDigest` is a state machine over the memo map it captures (section 5 below: the external
-gets the step function and the state and returns the state it leaves; that it can reach the state only by calling the
-closure is the explicit hypothesis `CallsOnly`, not an assumption of the translation).  `(*Authenticode).Verify` — the
-exported method, which `PECOFFBinary.Verify` no longer calls — is not a target any more.
+`ParseAuthenticode`, `makeSectionReader`, the digest function of the standard library `crypto_Hash_Sum` (what
+`alg.New()` + writes + `Sum(nil)` compute), and `pkcs7 : pkcs7.Ext` — the Ext structure of package pkcs7 (its one field:
+`signerinfo.verify`), which the translated `(*Authenticode).verifyDigest` hands to the translated `pkcs7.PKCS7.Verify`.
+They are functions of their arguments AS THE TRANSLATION REPRESENTS THEM: an `Authenticode` value keeps `Pkcs`, `Digest`
+and `Algid : pkix.AlgorithmIdentifier` (the standard-library struct, loaded: `Algorithm` the list of the identifier's
+components, `Parameters` opaque); a reader argument is the bytes it delivers, and what the callee leaves of a reader made
+for that one call is dropped.  `(*Authenticode).verifyDigest(cert, imageDigest)` IS TRANSLATED (section 5): its
+function-typed parameter is the triple state type / step function / state, it returns the state it leaves in front of
+its results, and a call `imageDigest(alg)` is the step function applied to the current state — that it reaches the
+closure's state only by calling the closure is visible in `Gen.lean` and proved (`C03g_verifyDigest`,
+`C03g_verifyDigest_callsOnly`), no longer a hypothesis.  `crypto.Hash.Size()` is the prelude's table `cryptoHashSize`
+(`crypto.SHA256` = 5: 32; the panic for an unregistered identifier is not modelled), `ObjectIdentifier.Equal` is
+equality of the lists, the three `errors.New(…)` of `verifyDigest` are the one value `some "errors.New"` (messages of
+fresh errors are not modelled, as everywhere in the translation).  The exported `(*Authenticode).Verify(cert, img)` is
+translated too (its function literal is the closure `authenticode.Authenticode.Verify.imageDigest1` over the reader).
 `binary.Write` into a `bytes.Buffer` cannot fail (its error is `nil` in the translation, so the `fmt.Errorf` branch of
 `AppendSignature` is dead code there, as it is in Go).  Aliasing is not modelled (the harness checks that `Bytes()` results
 stay intact).
@@ -412,8 +420,8 @@ theorem C03g_sign_ok (X : authenticode.Ext) (p : authenticode.PECOFFBinary) (key
 /-! ### 5. `Verify`
 
 Since the library hashes the image once per `Verify` call (commit "PECOFFBinary.Verify hashes the image once per call")
-the loop hands every parsed entry to the EXTERNAL `(*Authenticode).verifyDigest(cert, imageDigest)`, where `imageDigest`
-is a LOCAL CLOSURE that memoises the digest per algorithm in a local `map[crypto.Hash][]byte`.  In the translation
+the loop hands every parsed entry to `(*Authenticode).verifyDigest(cert, imageDigest)`, where `imageDigest` is a LOCAL
+CLOSURE that memoises the digest per algorithm in a local `map[crypto.Hash][]byte`.  In the translation
 (tools/go2lean/fnarg.go):
 * the map is the association list `Memo`; the closure is the helper `authenticode.PECOFFBinary.Verify.imageDigest X p`,
   a STATE MACHINE `Memo → crypto.Hash → Memo × List UInt8 × GoErr` (it returns the map it leaves);
@@ -421,11 +429,10 @@ is a LOCAL CLOSURE that memoises the digest per algorithm in a local `map[crypto
   function of the standard library is the field `crypto_Hash_Sum` of `authenticode.Ext`, a function of the algorithm and
   the bytes (so: deterministic, as is `X.makeSectionReader`); `io.Copy` from a reader that does not fail into a
   `hash.Hash` (whose `Write` never fails) reports no error, so the closure's error branch is dead in the translation;
-* the external is handed the state type, the step function and the current state, and returns the state it leaves:
-  `X.Authenticode_verifyDigest a cert σ step s : σ × Bool × GoErr`.  It is an ARBITRARY function of these.  That a Go
-  function can reach the closure's map only by CALLING the closure is not part of the translation: it is the explicit
-  hypothesis `CallsOnly X` of the theorems below that speak about the unmemoised digest function
-  (`C03g_verify_threaded` needs no hypothesis and says what the loop does for every external whatsoever). -/
+* `verifyDigest` IS TRANSLATED: `authenticode.Authenticode.verifyDigest X' a cert σ step s : σ × Bool × GoErr` (X' the Ext
+  structure of pkcs7) takes the state type, the step function and the current state and returns the state it leaves.
+  What it does with them is in `Gen.lean`: `C03g_verifyDigest` says it for EVERY state machine — no hypothesis on an
+  external is left in this section. -/
 
 /-- the local `map[crypto.Hash][]byte` of one `Verify` call: at most one entry per algorithm (`List.lookup`, `mapSet`) -/
 abbrev Memo := List (crypto.Hash × List UInt8)
@@ -481,26 +488,143 @@ theorem C03g_imageDigest_memo (X : authenticode.Ext) (p : authenticode.PECOFFBin
     · rw [if_neg he] at hd'
       exact h alg' d' hd'
 
-/-- the external `verifyDigest` on a PURE digest function `f` (a closure without state) -/
-def verifyDigestOf (X : authenticode.Ext) (a : authenticode.Authenticode) (c : X509Cert)
+/-! #### `(*Authenticode).verifyDigest`, translated -/
+
+/-- `crypto.SHA256.Size()` -/
+theorem cryptoHashSize_sha256 : cryptoHashSize 5 = 32 := by decide
+
+/-- **`verifyDigest(cert, imageDigest)`, for every receiver, every certificate, every value of pkcs7's externals and
+    EVERY STATE MACHINE `step` / state `s` standing for the closure** — the checks of the source, in their order:
+    1. the digest algorithm of the signature is not SHA-256 (`a.Algid.Algorithm.Equal(pkcs7.OIDDigestAlgorithmSHA256)`
+       fails) → `(false, error)`, THE CLOSURE IS NOT CALLED (the state comes back as it was handed);
+    2. the embedded digest does not have the length of SHA-256 (`crypto.SHA256.Size()` = 32) → `(false, error)`, the
+       closure is not called;
+    3. otherwise the closure is called EXACTLY ONCE, for `crypto.SHA256` (5), from the state that was handed, and the
+       state it leaves is the one returned; its error → `(false, that error)`;
+    4. the digest it answers is not the embedded digest → `(false, error)` ("incorrect digest");
+    5. otherwise the answer is `a.Pkcs.Verify(cert)` (the translated `pkcs7.PKCS7.Verify`, theorems `C04g_*`). -/
+theorem C03g_verifyDigest (X : pkcs7.Ext) (a : authenticode.Authenticode) (c : X509Cert) (σ : Type)
+    (step : σ → crypto.Hash → σ × List UInt8 × GoErr) (s : σ) :
+    authenticode.Authenticode.verifyDigest X a c σ step s =
+      if a.Algid.Algorithm ≠ pkcs7.OIDDigestAlgorithmSHA256 then (s, false, some "errors.New")
+      else if a.Digest.length ≠ 32 then (s, false, some "errors.New")
+      else if (step s 5).2.2.isSome then ((step s 5).1, false, (step s 5).2.2)
+      else if (step s 5).2.1 ≠ a.Digest then ((step s 5).1, false, some "errors.New")
+      else ((step s 5).1, a.Pkcs.Verify X c) := by
+  unfold authenticode.Authenticode.verifyDigest
+  simp only [lenI_eq, cryptoHashSize_sha256]
+  by_cases h1 : a.Algid.Algorithm = pkcs7.OIDDigestAlgorithmSHA256
+  · simp only [h1, beq_self_eq_true, if_true, ne_eq, not_true_eq_false, if_false]
+    by_cases h2 : a.Digest.length = 32
+    · have h2' : ((32 : Int) != (a.Digest.length : Int)) = false := by simp [h2]
+      simp only [h2', Bool.false_eq_true, if_false]
+      simp only [h2, not_true_eq_false, if_false]
+      by_cases h3 : (step s 5).2.2.isSome
+      · simp only [h3, if_true]
+      · simp only [h3, Bool.false_eq_true, if_false]
+        by_cases h4 : (step s 5).2.1 = a.Digest
+        · simp [h4]
+        · simp [h4]
+    · have h2' : ((32 : Int) != (a.Digest.length : Int)) = true := by
+        simp only [bne_iff_ne, ne_eq]; omega
+      simp only [h2', if_true]
+      simp only [h2, not_false_eq_true, if_true]
+  · have h1' : (a.Algid.Algorithm == pkcs7.OIDDigestAlgorithmSHA256) = false := by simp [h1]
+    simp only [h1', Bool.false_eq_true, if_false, ne_eq, h1, not_false_eq_true, if_true]
+
+/-- **what `verifyDigest` returns on a PURE digest function `f`** (a closure without state): the same five cases -/
+def verifyDigestOf (X : pkcs7.Ext) (a : authenticode.Authenticode) (c : X509Cert)
     (f : crypto.Hash → List UInt8 × GoErr) : Bool × GoErr :=
-  (X.Authenticode_verifyDigest a c Unit (fun _ alg => ((), f alg)) ()).2
+  if a.Algid.Algorithm ≠ pkcs7.OIDDigestAlgorithmSHA256 then (false, some "errors.New")   -- unsupported hashing function
+  else if a.Digest.length ≠ 32 then (false, some "errors.New")                              -- wrong block size
+  else if (f 5).2.isSome then (false, (f 5).2)                                              -- the closure's error
+  else if (f 5).1 ≠ a.Digest then (false, some "errors.New")                                -- incorrect digest
+  else a.Pkcs.Verify X c
 
-/-- **hypothesis on the external, explicit**: `verifyDigest` reaches the state of the closure it is handed ONLY BY
-    CALLING THE CLOSURE.  Then, for every state machine `step` that from the states of an invariant `I` answers what a
-    pure function `f` answers and stays inside `I`, the external started inside `I` ends inside `I` and answers what it
-    answers on `f`.  Every Go function satisfies this (it has no other access to the closure's captured variables; by
-    induction on the calls it makes, whichever algorithms it asks for and in whatever order); an arbitrary Lean function
-    of the type of the field need not, which is why it is a hypothesis and not a lemma. -/
-def CallsOnly (X : authenticode.Ext) : Prop :=
-  ∀ (a : authenticode.Authenticode) (c : X509Cert) (σ : Type) (step : σ → crypto.Hash → σ × List UInt8 × GoErr)
-    (f : crypto.Hash → List UInt8 × GoErr) (I : σ → Prop) (s : σ),
-    I s → (∀ s alg, I s → I (step s alg).1 ∧ (step s alg).2 = f alg) →
-    I (X.Authenticode_verifyDigest a c σ step s).1 ∧
-      (X.Authenticode_verifyDigest a c σ step s).2 = verifyDigestOf X a c f
+theorem verifyDigestOf_eq (X : pkcs7.Ext) (a : authenticode.Authenticode) (c : X509Cert)
+    (f : crypto.Hash → List UInt8 × GoErr) :
+    verifyDigestOf X a c f = (authenticode.Authenticode.verifyDigest X a c Unit (fun _ alg => ((), f alg)) ()).2 := by
+  rw [C03g_verifyDigest]
+  unfold verifyDigestOf
+  repeat' split <;> try rfl
 
-/-- the loop with the map threaded through it — for EVERY external: the entries are asked in table order, every parsed
-    entry is handed, with the certificate, THE SAME closure and the map as the previous entries left it -/
+/-- **`verifyDigest` reaches the state of the closure it is handed ONLY BY CALLING THE CLOSURE — a theorem about the
+    translated function** (it was the hypothesis `CallsOnly` on the external while `verifyDigest` was one): for every
+    state machine `step` that from the states of an invariant `I` answers what a pure function `f` answers and stays
+    inside `I`, `verifyDigest` started inside `I` ends inside `I` and answers what it answers on `f` -/
+theorem C03g_verifyDigest_callsOnly (X : pkcs7.Ext) (a : authenticode.Authenticode) (c : X509Cert) (σ : Type)
+    (step : σ → crypto.Hash → σ × List UInt8 × GoErr) (f : crypto.Hash → List UInt8 × GoErr) (I : σ → Prop) (s : σ)
+    (hs : I s) (hstep : ∀ s alg, I s → I (step s alg).1 ∧ (step s alg).2 = f alg) :
+    I (authenticode.Authenticode.verifyDigest X a c σ step s).1 ∧
+      (authenticode.Authenticode.verifyDigest X a c σ step s).2 = verifyDigestOf X a c f := by
+  rw [C03g_verifyDigest]
+  unfold verifyDigestOf
+  have h5 := hstep s 5 hs
+  have e1 : (step s 5).2.1 = (f 5).1 := by rw [h5.2]
+  have e2 : (step s 5).2.2 = (f 5).2 := by rw [h5.2]
+  rw [e1, e2]
+  repeat' split
+  all_goals first | exact ⟨hs, rfl⟩ | exact ⟨h5.1, rfl⟩
+
+/-- success of `verifyDigest`, spelled out: SHA-256 is named, the embedded digest has 32 bytes and IS the digest that the
+    closure answers for SHA-256 (without an error), and the PKCS#7 verifies under the certificate -/
+theorem verifyDigestOf_true_iff (X : pkcs7.Ext) (a : authenticode.Authenticode) (c : X509Cert)
+    (f : crypto.Hash → List UInt8 × GoErr) :
+    verifyDigestOf X a c f = (true, none) ↔
+      a.Algid.Algorithm = pkcs7.OIDDigestAlgorithmSHA256 ∧ a.Digest.length = 32 ∧ (f 5).2 = none ∧
+        a.Digest = (f 5).1 ∧ a.Pkcs.Verify X c = (true, none) := by
+  unfold verifyDigestOf
+  by_cases h1 : a.Algid.Algorithm = pkcs7.OIDDigestAlgorithmSHA256
+  · by_cases h2 : a.Digest.length = 32
+    · cases h3 : (f 5).2 with
+      | some e => simp [h1, h2, h3]
+      | none =>
+        by_cases h4 : (f 5).1 = a.Digest
+        · simp [h1, h2, h3, h4]
+        · have h4' : ¬ a.Digest = (f 5).1 := fun h => h4 h.symm
+          simp [h1, h2, h3, h4, h4']
+    · simp [h1, h2]
+  · simp [h1]
+
+/-- … and of "(false, nil)" (the only answer that lets the loop go on): all four checks pass and the PKCS#7 answers
+    `(false, nil)` — no signer entry that names the certificate is accepted -/
+theorem verifyDigestOf_false_iff (X : pkcs7.Ext) (a : authenticode.Authenticode) (c : X509Cert)
+    (f : crypto.Hash → List UInt8 × GoErr) :
+    verifyDigestOf X a c f = (false, none) ↔
+      a.Algid.Algorithm = pkcs7.OIDDigestAlgorithmSHA256 ∧ a.Digest.length = 32 ∧ (f 5).2 = none ∧
+        a.Digest = (f 5).1 ∧ a.Pkcs.Verify X c = (false, none) := by
+  unfold verifyDigestOf
+  by_cases h1 : a.Algid.Algorithm = pkcs7.OIDDigestAlgorithmSHA256
+  · by_cases h2 : a.Digest.length = 32
+    · cases h3 : (f 5).2 with
+      | some e => simp [h1, h2, h3]
+      | none =>
+        by_cases h4 : (f 5).1 = a.Digest
+        · simp [h1, h2, h3, h4]
+        · have h4' : ¬ a.Digest = (f 5).1 := fun h => h4 h.symm
+          simp [h1, h2, h3, h4, h4']
+    · simp [h1, h2]
+  · simp [h1]
+
+/-- **the exported `(*Authenticode).Verify(cert, img)`** (translated as well; `PECOFFBinary.Verify` does not call it): the
+    same five checks against the SHA-256 of everything `img` delivers; `img` is read to the end exactly when the first
+    two checks pass, and left untouched otherwise -/
+theorem C03g_authenticode_verify (X : authenticode.Ext) (a : authenticode.Authenticode) (c : X509Cert) (img : List UInt8) :
+    authenticode.Authenticode.Verify X a c img =
+      if a.Algid.Algorithm ≠ pkcs7.OIDDigestAlgorithmSHA256 then (img, false, some "errors.New")
+      else if a.Digest.length ≠ 32 then (img, false, some "errors.New")
+      else if X.crypto_Hash_Sum 5 img ≠ a.Digest then ([], false, some "errors.New")
+      else ([], a.Pkcs.Verify X.pkcs7 c) := by
+  unfold authenticode.Authenticode.Verify
+  rw [C03g_verifyDigest]
+  unfold authenticode.Authenticode.Verify.imageDigest1
+  simp only [List.nil_append, Option.isSome_none, Bool.false_eq_true, if_false]
+  repeat' split <;> try rfl
+
+/-! #### the loop -/
+
+/-- the loop with the map threaded through it: the entries are asked in table order, every parsed entry is handed, with
+    the certificate, THE SAME closure and the map as the previous entries left it -/
 def verifyFrom (X : authenticode.Ext) (p : authenticode.PECOFFBinary) (cert : X509Cert) :
     List signature.WINCertificate → Memo → Bool × GoErr
   | [], _ => (false, some "ErrNoValidSignatures")
@@ -508,7 +632,8 @@ def verifyFrom (X : authenticode.Ext) (p : authenticode.PECOFFBinary) (cert : X5
     let a := X.ParseAuthenticode w.Certificate
     if a.2.isSome then (false, some "fmt.Errorf")
     else
-      let v := X.Authenticode_verifyDigest a.1 cert Memo (authenticode.PECOFFBinary.Verify.imageDigest X p) m
+      let v := authenticode.Authenticode.verifyDigest X.pkcs7 a.1 cert Memo
+        (authenticode.PECOFFBinary.Verify.imageDigest X p) m
       if v.2.2.isSome then (false, v.2.2)
       else if v.2.1 then (true, none)
       else verifyFrom X p cert ws v.1
@@ -527,17 +652,17 @@ theorem verify_loop (X : authenticode.Ext) (p : authenticode.PECOFFBinary) (cert
     by_cases h1 : (X.ParseAuthenticode w.Certificate).2.isSome
     · simp only [h1, if_true]
     · simp only [h1, Bool.false_eq_true, if_false]
-      by_cases h2 : (X.Authenticode_verifyDigest (X.ParseAuthenticode w.Certificate).1 cert Memo
+      by_cases h2 : (authenticode.Authenticode.verifyDigest X.pkcs7 (X.ParseAuthenticode w.Certificate).1 cert Memo
           (authenticode.PECOFFBinary.Verify.imageDigest X p) m).2.2.isSome
       · simp only [h2, if_true]
       · simp only [h2, Bool.false_eq_true, if_false]
-        by_cases h3 : (X.Authenticode_verifyDigest (X.ParseAuthenticode w.Certificate).1 cert Memo
+        by_cases h3 : (authenticode.Authenticode.verifyDigest X.pkcs7 (X.ParseAuthenticode w.Certificate).1 cert Memo
             (authenticode.PECOFFBinary.Verify.imageDigest X p) m).2.1
         · simp only [h3, Bool.not_true, Bool.false_eq_true, if_false, if_true]
         · simp only [h3, Bool.not_false, if_true, Bool.false_eq_true, if_false]
           exact ih _
 
-/-- **`Verify cert`, for every value of the externals and every receiver** (no hypothesis):
+/-- **`Verify cert`, with the map threaded** (the shape of the source):
     * an error of `Signatures()` → `(false, error)`;
     * no entries → `(false, ErrNoSignatures)`;
     * otherwise `verifyFrom` over the listed entries, started with the EMPTY map: the first entry that does not answer
@@ -575,14 +700,14 @@ def entryVerdict (X : authenticode.Ext) (f : crypto.Hash → List UInt8 × GoErr
   let a := X.ParseAuthenticode w.Certificate
   if a.2.isSome then some (false, some "fmt.Errorf")        -- does not parse: an error, the later entries are not looked at
   else
-    let v := verifyDigestOf X a.1 cert f
+    let v := verifyDigestOf X.pkcs7 a.1 cert f
     if v.2.isSome then some (false, v.2)                      -- `verifyDigest` of the entry reports an error: that error
     else if v.1 then some (true, none)                        -- verified
     else none                                                 -- `(false, nil)`: next entry
 
-/-- under `CallsOnly`, from any map that satisfies the invariant, the threaded loop is "the first entry that does not
-    answer (false, nil) decides", every entry verified against THE SAME UNMEMOISED digest function -/
-theorem verifyFrom_eq (X : authenticode.Ext) (p : authenticode.PECOFFBinary) (cert : X509Cert) (hX : CallsOnly X) :
+/-- from any map that satisfies the invariant, the threaded loop is "the first entry that does not answer (false, nil)
+    decides", every entry verified against THE SAME UNMEMOISED digest function -/
+theorem verifyFrom_eq (X : authenticode.Ext) (p : authenticode.PECOFFBinary) (cert : X509Cert) :
     ∀ (ws : List signature.WINCertificate) (m : Memo), MemoOk X p m →
     verifyFrom X p cert ws m =
       (ws.findSome? (entryVerdict X (imageDigest X p) cert)).getD (false, some "ErrNoValidSignatures") := by
@@ -591,7 +716,8 @@ theorem verifyFrom_eq (X : authenticode.Ext) (p : authenticode.PECOFFBinary) (ce
   | nil => intro m _; rfl
   | cons w ws ih =>
     intro m hm
-    have hc := hX (X.ParseAuthenticode w.Certificate).1 cert Memo (authenticode.PECOFFBinary.Verify.imageDigest X p)
+    have hc := C03g_verifyDigest_callsOnly X.pkcs7 (X.ParseAuthenticode w.Certificate).1 cert Memo
+      (authenticode.PECOFFBinary.Verify.imageDigest X p)
       (imageDigest X p) (MemoOk X p) m hm (fun s alg hs => C03g_imageDigest_memo X p s alg hs)
     unfold verifyFrom
     simp only [List.findSome?_cons, entryVerdict]
@@ -599,24 +725,24 @@ theorem verifyFrom_eq (X : authenticode.Ext) (p : authenticode.PECOFFBinary) (ce
     · simp only [h1, if_true, Option.getD_some]
     · simp only [h1, Bool.false_eq_true, if_false]
       rw [hc.2]
-      by_cases h2 : (verifyDigestOf X (X.ParseAuthenticode w.Certificate).1 cert (imageDigest X p)).2.isSome
+      by_cases h2 : (verifyDigestOf X.pkcs7 (X.ParseAuthenticode w.Certificate).1 cert (imageDigest X p)).2.isSome
       · simp only [h2, if_true, Option.getD_some]
       · simp only [h2, Bool.false_eq_true, if_false]
-        by_cases h3 : (verifyDigestOf X (X.ParseAuthenticode w.Certificate).1 cert (imageDigest X p)).1
+        by_cases h3 : (verifyDigestOf X.pkcs7 (X.ParseAuthenticode w.Certificate).1 cert (imageDigest X p)).1
         · simp only [h3, if_true, Option.getD_some]
         · simp only [h3, Bool.false_eq_true, if_false]
           exact ih _ hc.1
 
-/-- **`Verify cert` in terms of the unmemoised digest function** — for every receiver and every value of the externals
-    whose `verifyDigest` reaches the closure's map only by calling the closure (`CallsOnly`):
+/-- **`Verify cert` in terms of the unmemoised digest function** — for every receiver and EVERY value of the externals
+    (no hypothesis):
     * an error of `Signatures()` → `(false, error)`;
     * no entries → `(false, ErrNoSignatures)`;
     * otherwise the entries are asked in table order and THE FIRST ENTRY THAT DOES NOT ANSWER "(false, nil)" DECIDES
-      (`entryVerdict`), EVERY ENTRY BEING VERIFIED AGAINST THE SAME DIGEST FUNCTION `imageDigest X p`: the digest, under
-      the algorithm asked for, of the bytes of `makeSectionReader(p.hashContent)`.  That the library computes that
-      digest once and keeps it in a map cannot be observed in the result (`C03g_imageDigest_memo`). -/
-theorem C03g_verify (fuel : Nat) (X : authenticode.Ext) (p : authenticode.PECOFFBinary) (cert : X509Cert)
-    (hX : CallsOnly X) :
+      (`entryVerdict`), EVERY ENTRY BEING VERIFIED — by the five checks of `verifyDigestOf` — AGAINST THE SAME DIGEST
+      FUNCTION `imageDigest X p`: the digest, under the algorithm asked for, of the bytes of
+      `makeSectionReader(p.hashContent)`.  That the library computes that digest once and keeps it in a map cannot be
+      observed in the result (`C03g_imageDigest_memo`, `C03g_verifyDigest_callsOnly`). -/
+theorem C03g_verify (fuel : Nat) (X : authenticode.Ext) (p : authenticode.PECOFFBinary) (cert : X509Cert) :
     authenticode.PECOFFBinary.Verify fuel X p cert =
       match p.Signatures fuel with
       | (_, some _) => (false, some "fmt.Errorf")
@@ -630,29 +756,76 @@ theorem C03g_verify (fuel : Nat) (X : authenticode.Ext) (p : authenticode.PECOFF
   | none =>
     cases ws with
     | nil => rfl
-    | cons w ws => exact verifyFrom_eq X p cert hX (w :: ws) [] (memoOk_nil X p)
+    | cons w ws => exact verifyFrom_eq X p cert (w :: ws) [] (memoOk_nil X p)
 
-/-- success, spelled out: `Verify` returns `(true, nil)` exactly when `Signatures()` succeeds and some entry `k` parses
-    and verifies against the image digest function while every entry before it parsed and answered `(false, nil)` -/
-theorem C03g_verify_true_iff (fuel : Nat) (X : authenticode.Ext) (p : authenticode.PECOFFBinary) (cert : X509Cert)
-    (hX : CallsOnly X) :
+/-- an entry lets the loop go on exactly when it parses, names SHA-256, carries the 32-byte SHA-256 digest of the image's
+    hash stream, and its PKCS#7 answers `(false, nil)` for the certificate -/
+theorem entryVerdict_none_iff (X : authenticode.Ext) (p : authenticode.PECOFFBinary) (cert : X509Cert)
+    (w : signature.WINCertificate) :
+    entryVerdict X (imageDigest X p) cert w = none ↔
+      (X.ParseAuthenticode w.Certificate).2 = none ∧
+      (X.ParseAuthenticode w.Certificate).1.Algid.Algorithm = pkcs7.OIDDigestAlgorithmSHA256 ∧
+      (X.ParseAuthenticode w.Certificate).1.Digest.length = 32 ∧
+      (X.ParseAuthenticode w.Certificate).1.Digest = X.crypto_Hash_Sum 5 (X.makeSectionReader p.hashContent).content ∧
+      (X.ParseAuthenticode w.Certificate).1.Pkcs.Verify X.pkcs7 cert = (false, none) := by
+  have hf := verifyDigestOf_false_iff X.pkcs7 (X.ParseAuthenticode w.Certificate).1 cert (imageDigest X p)
+  have e1 : (imageDigest X p 5).1 = X.crypto_Hash_Sum 5 (X.makeSectionReader p.hashContent).content := rfl
+  have e2 : (imageDigest X p 5).2 = none := rfl
+  rw [e1, e2] at hf
+  simp only [true_and] at hf
+  rw [← hf]
+  unfold entryVerdict
+  simp only []
+  rcases hp : X.ParseAuthenticode w.Certificate with ⟨a, pe⟩
+  cases pe with
+  | some e => simp
+  | none =>
+    rcases hq : verifyDigestOf X.pkcs7 a cert (imageDigest X p) with ⟨ok, ve⟩
+    cases ve with
+    | some e => simp
+    | none => cases ok <;> simp
+
+/-- **success, spelled out**: `Verify` returns `(true, nil)` exactly when `Signatures()` succeeds and some entry `w` of
+    the table
+    * parses as Authenticode,
+    * names SHA-256 as its digest algorithm,
+    * carries a 32-byte digest that IS the SHA-256 (the digest external under `crypto.SHA256`) of the image's hash stream
+      (the bytes of `makeSectionReader(hashContent)`),
+    * and its PKCS#7 verifies under the certificate (`pkcs7.PKCS7.Verify`: `C04g_verify_true_iff`),
+    while every entry before it parsed and answered `(false, nil)` (`entryVerdict_none_iff`: the same four facts with a
+    PKCS#7 that answers `(false, nil)`) -/
+theorem C03g_verify_true_iff (fuel : Nat) (X : authenticode.Ext) (p : authenticode.PECOFFBinary) (cert : X509Cert) :
     authenticode.PECOFFBinary.Verify fuel X p cert = (true, none) ↔
       ∃ ws, p.Signatures fuel = (ws, none) ∧ ∃ pre w post, ws = pre ++ w :: post ∧
         (∀ x ∈ pre, entryVerdict X (imageDigest X p) cert x = none) ∧
         (X.ParseAuthenticode w.Certificate).2 = none ∧
-        verifyDigestOf X (X.ParseAuthenticode w.Certificate).1 cert (imageDigest X p) = (true, none) := by
-  rw [C03g_verify fuel X p cert hX]
+        (X.ParseAuthenticode w.Certificate).1.Algid.Algorithm = pkcs7.OIDDigestAlgorithmSHA256 ∧
+        (X.ParseAuthenticode w.Certificate).1.Digest.length = 32 ∧
+        (X.ParseAuthenticode w.Certificate).1.Digest =
+          X.crypto_Hash_Sum 5 (X.makeSectionReader p.hashContent).content ∧
+        (X.ParseAuthenticode w.Certificate).1.Pkcs.Verify X.pkcs7 cert = (true, none) := by
+  rw [C03g_verify fuel X p cert]
   have hv : ∀ w, entryVerdict X (imageDigest X p) cert w = some (true, none) ↔
       ((X.ParseAuthenticode w.Certificate).2 = none ∧
-        verifyDigestOf X (X.ParseAuthenticode w.Certificate).1 cert (imageDigest X p) = (true, none)) := by
+        (X.ParseAuthenticode w.Certificate).1.Algid.Algorithm = pkcs7.OIDDigestAlgorithmSHA256 ∧
+        (X.ParseAuthenticode w.Certificate).1.Digest.length = 32 ∧
+        (X.ParseAuthenticode w.Certificate).1.Digest =
+          X.crypto_Hash_Sum 5 (X.makeSectionReader p.hashContent).content ∧
+        (X.ParseAuthenticode w.Certificate).1.Pkcs.Verify X.pkcs7 cert = (true, none)) := by
     intro w
+    have hf := verifyDigestOf_true_iff X.pkcs7 (X.ParseAuthenticode w.Certificate).1 cert (imageDigest X p)
+    have e1 : (imageDigest X p 5).1 = X.crypto_Hash_Sum 5 (X.makeSectionReader p.hashContent).content := rfl
+    have e2 : (imageDigest X p 5).2 = none := rfl
+    rw [e1, e2] at hf
+    simp only [true_and] at hf
+    rw [← hf]
     unfold entryVerdict
     simp only []
     rcases hp : X.ParseAuthenticode w.Certificate with ⟨a, pe⟩
     cases pe with
     | some e => simp
     | none =>
-      rcases hq : verifyDigestOf X a cert (imageDigest X p) with ⟨ok, ve⟩
+      rcases hq : verifyDigestOf X.pkcs7 a cert (imageDigest X p) with ⟨ok, ve⟩
       cases ve with
       | some e => simp
       | none => cases ok <;> simp
@@ -721,12 +894,12 @@ theorem C03g_verify_true_iff (fuel : Nat) (X : authenticode.Ext) (p : authentico
 /-- an entry that does not parse ends the loop with an error when every entry before it answered `(false, nil)` —
     whatever stands behind it -/
 theorem C03g_verify_unparsable_entry (fuel : Nat) (X : authenticode.Ext) (p : authenticode.PECOFFBinary)
-    (cert : X509Cert) (hX : CallsOnly X) (pre post : List signature.WINCertificate) (w : signature.WINCertificate)
+    (cert : X509Cert) (pre post : List signature.WINCertificate) (w : signature.WINCertificate)
     (hs : p.Signatures fuel = (pre ++ w :: post, none))
     (hpre : ∀ x ∈ pre, entryVerdict X (imageDigest X p) cert x = none)
     (hw : (X.ParseAuthenticode w.Certificate).2.isSome) :
     authenticode.PECOFFBinary.Verify fuel X p cert = (false, some "fmt.Errorf") := by
-  rw [C03g_verify fuel X p cert hX, hs]
+  rw [C03g_verify fuel X p cert, hs]
   have hv : entryVerdict X (imageDigest X p) cert w = some (false, some "fmt.Errorf") := by
     unfold entryVerdict; simp only [hw, if_true]
   have hf : ∀ pre : List signature.WINCertificate,
@@ -747,7 +920,7 @@ theorem C03g_verify_unparsable_entry (fuel : Nat) (X : authenticode.Ext) (p : au
     rw [hpw] at hf
     simp only [hf, Option.getD_some]
 
-/-- … and the very first entry needs no hypothesis at all: if it does not parse, `Verify` fails for every external -/
+/-- … in particular the very first entry: if it does not parse, `Verify` fails -/
 theorem C03g_verify_first_unparsable (fuel : Nat) (X : authenticode.Ext) (p : authenticode.PECOFFBinary)
     (cert : X509Cert) (w : signature.WINCertificate) (post : List signature.WINCertificate)
     (hs : p.Signatures fuel = (w :: post, none)) (hw : (X.ParseAuthenticode w.Certificate).2.isSome) :
@@ -758,45 +931,71 @@ theorem C03g_verify_first_unparsable (fuel : Nat) (X : authenticode.Ext) (p : au
 /-- how a `(Bool, error)` result is read by the model -/
 def outcomeOf (r : Bool × GoErr) : Outcome Bool := if r.2.isSome then .err else .ok r.1
 
-/-- what `(*Authenticode).verifyDigest(cert, f)` does in the library, on the model's `Auth` value (Go: the algorithm must
-    be SHA-256, the embedded digest must have its length, `f(crypto.SHA256)` must not fail and must equal the embedded
-    digest; then the PKCS#7 verification decides).  `crypto.SHA256` is 5. -/
-def authVerifyDigest (C : Crypto) (a : Impl.Auth) (c : Cert) (f : crypto.Hash → List UInt8 × GoErr) : Outcome Bool :=
-  if a.alg != Impl.oidSha256 then .err else
-  if a.digest.length != 32 then .err else
-  if (f 5).2.isSome then .err else
-  if (f 5).1 != a.digest then .err else
-  a.pkcs.verify C c
+/-- the generated constant is the model's object identifier -/
+theorem oidSha256_eq : pkcs7.OIDDigestAlgorithmSHA256 = Impl.oidSha256.map Int.ofNat := by decide
 
-/-- on the digest function "SHA-256 of `stream`" this is the model's `Auth.verify … stream` -/
-theorem authVerifyDigest_eq (C : Crypto) (a : Impl.Auth) (c : Cert) (f : crypto.Hash → List UInt8 × GoErr)
-    (stream : Bytes) (hf : f 5 = (C.sha256 stream, none)) :
-    authVerifyDigest C a c f = a.verify C c stream := by
-  unfold authVerifyDigest Impl.Auth.verify
-  rw [hf]
-  simp
+/-- **the translated `verifyDigest` is the model's `Auth.verify`** on a parsed value that carries the model's fields: the
+    same object identifier, the same embedded digest, and a PKCS#7 whose translated `Verify` gives the model's outcome —
+    when the digest external under `crypto.SHA256` is the model's SHA-256 and the bytes of
+    `makeSectionReader(hashContent)` are the model's hash stream -/
+theorem C03g_verifyDigest_model (X : authenticode.Ext) (p : authenticode.PECOFFBinary) (cert : X509Cert)
+    (C : Crypto) (c : Cert) (parts : List Impl.Part) (regular : Bool) (a : Impl.Auth) (ga : authenticode.Authenticode)
+    (hstream : (X.makeSectionReader p.hashContent).content = Impl.hashStream (absP p parts regular))
+    (hsha : ∀ bs, X.crypto_Hash_Sum 5 bs = C.sha256 bs)
+    (halg : ga.Algid.Algorithm = a.alg.map Int.ofNat)
+    (hdig : ga.Digest = a.digest)
+    (hpk : outcomeOf (ga.Pkcs.Verify X.pkcs7 cert) = a.pkcs.verify C c) :
+    outcomeOf (verifyDigestOf X.pkcs7 ga cert (imageDigest X p)) =
+      a.verify C c (Impl.hashStream (absP p parts regular)) := by
+  unfold verifyDigestOf Impl.Auth.verify imageDigest
+  rw [hstream, hsha, halg, hdig, oidSha256_eq]
+  have hinj : (List.map Int.ofNat a.alg = List.map Int.ofNat Impl.oidSha256) ↔ a.alg = Impl.oidSha256 :=
+    List.map_inj_right (fun x y h => Int.ofNat.inj h)
+  by_cases h1 : a.alg = Impl.oidSha256
+  · have h1' : List.map Int.ofNat a.alg = List.map Int.ofNat Impl.oidSha256 := hinj.mpr h1
+    by_cases h2 : a.digest.length = 32
+    · by_cases h4 : C.sha256 (Impl.hashStream (absP p parts regular)) = a.digest
+      · simp [h1, h2, h4, hpk]
+      · simp [h1, h2, h4, outcomeOf]
+    · simp [h1, h2, outcomeOf]
+  · have h1' : ¬ List.map Int.ofNat a.alg = List.map Int.ofNat Impl.oidSha256 := fun h => h1 (hinj.mp h)
+    simp [h1, h1', outcomeOf]
 
 /-- **refinement of the loop**: when
-    * `verifyDigest` reaches the closure's map only by calling the closure (`CallsOnly`),
-    * the bytes of `makeSectionReader(hashContent)` are the model's hash stream,
-    * the externals answer as the model's `parseAuthenticode` / `Auth.verify` do — an entry body parses in the translation
-      exactly when it does in the model, and the parsed value, verified against the image digest function, gives the
-      model's outcome on the hash stream (`C03g_verifyDigest_model`: so it is for an external that does what
-      `authVerifyDigest` says, with a digest external that is the model's SHA-256) —
-    the translated `Verify` is the model's `Impl.Parsed.verify` (Model/Authenticode.lean, about which
-    `C02_sound … C02_refines_spec` are proved), for any fuel above the table length -/
+    * the bytes of `makeSectionReader(hashContent)` are the model's hash stream and the digest external under
+      `crypto.SHA256` is the model's SHA-256,
+    * `ParseAuthenticode` answers as the model's `parseAuthenticode` does — an entry body parses in the translation
+      exactly when it does in the model, and the parsed value carries the model's object identifier and embedded digest
+      and a PKCS#7 whose translated `Verify` (with pkcs7's external `signerinfo.verify`) gives the model's outcome —
+    the translated `Verify` — loop, closure, memo map, `verifyDigest` — is the model's `Impl.Parsed.verify`
+    (Model/Authenticode.lean, about which `C02_sound … C02_refines_spec` are proved), for any fuel above the table length -/
 theorem C03g_verify_refines (fuel : Nat) (X : authenticode.Ext) (p : authenticode.PECOFFBinary) (cert : X509Cert)
     (C : Crypto) (certsOk : Bytes → Bool) (c : Cert) (parts : List Impl.Part) (regular : Bool)
-    (hX : CallsOnly X)
     (hf : p.certTable.length < fuel)
-    (hext : ∀ b : List UInt8,
+    (hstream : (X.makeSectionReader p.hashContent).content = Impl.hashStream (absP p parts regular))
+    (hsha : ∀ bs, X.crypto_Hash_Sum 5 bs = C.sha256 bs)
+    (hparse : ∀ b : List UInt8,
       match Impl.parseAuthenticode certsOk b with
       | none => (X.ParseAuthenticode b).2.isSome
       | some a => (X.ParseAuthenticode b).2 = none ∧
-          outcomeOf (verifyDigestOf X (X.ParseAuthenticode b).1 cert (imageDigest X p)) =
-            a.verify C c (Impl.hashStream (absP p parts regular))) :
+          (X.ParseAuthenticode b).1.Algid.Algorithm = a.alg.map Int.ofNat ∧
+          (X.ParseAuthenticode b).1.Digest = a.digest ∧
+          outcomeOf ((X.ParseAuthenticode b).1.Pkcs.Verify X.pkcs7 cert) = a.pkcs.verify C c) :
     outcomeOf (authenticode.PECOFFBinary.Verify fuel X p cert) = (absP p parts regular).verify C certsOk c := by
-  rw [C03g_verify fuel X p cert hX]
+  have hext : ∀ b : List UInt8,
+      match Impl.parseAuthenticode certsOk b with
+      | none => (X.ParseAuthenticode b).2.isSome
+      | some a => (X.ParseAuthenticode b).2 = none ∧
+          outcomeOf (verifyDigestOf X.pkcs7 (X.ParseAuthenticode b).1 cert (imageDigest X p)) =
+            a.verify C c (Impl.hashStream (absP p parts regular)) := by
+    intro b
+    have h := hparse b
+    cases hm : Impl.parseAuthenticode certsOk b with
+    | none => rw [hm] at h; exact h
+    | some a =>
+      rw [hm] at h
+      exact ⟨h.1, C03g_verifyDigest_model X p cert C c parts regular a _ hstream hsha h.2.1 h.2.2.1 h.2.2.2⟩
+  rw [C03g_verify fuel X p cert]
   have hloop : ∀ gws : List signature.WINCertificate,
       outcomeOf ((gws.findSome? (entryVerdict X (imageDigest X p) cert)).getD
         (false, some "ErrNoValidSignatures")) =
@@ -819,7 +1018,7 @@ theorem C03g_verify_refines (fuel : Nat) (X : authenticode.Ext) (p : authenticod
         rw [hm] at he
         obtain ⟨hp, hv⟩ := he
         simp only [entryVerdict, hp, Option.isSome_none, Bool.false_eq_true, if_false]
-        rcases hq : verifyDigestOf X (X.ParseAuthenticode w.Certificate).1 cert (imageDigest X p) with ⟨ok, ve⟩
+        rcases hq : verifyDigestOf X.pkcs7 (X.ParseAuthenticode w.Certificate).1 cert (imageDigest X p) with ⟨ok, ve⟩
         rw [hq] at hv
         rw [← hv]
         cases ve with
@@ -852,20 +1051,6 @@ theorem C03g_verify_refines (fuel : Nat) (X : authenticode.Ext) (p : authenticod
     | some e' => rfl
   | panic => exact absurd hm (C03g_signatures_model_returns _).1
   | exit => exact absurd hm (C03g_signatures_model_returns _).2
-
-/-- the third hypothesis of `C03g_verify_refines`, discharged for an external that does what the library's
-    `verifyDigest` does (`authVerifyDigest`) when the digest external under `crypto.SHA256` is the model's SHA-256 and
-    the bytes of `makeSectionReader(hashContent)` are the model's hash stream -/
-theorem C03g_verifyDigest_model (X : authenticode.Ext) (p : authenticode.PECOFFBinary) (cert : X509Cert)
-    (C : Crypto) (c : Cert) (parts : List Impl.Part) (regular : Bool) (a : Impl.Auth) (ga : authenticode.Authenticode)
-    (hstream : (X.makeSectionReader p.hashContent).content = Impl.hashStream (absP p parts regular))
-    (hsha : ∀ bs, X.crypto_Hash_Sum 5 bs = C.sha256 bs)
-    (hvd : ∀ f, outcomeOf (verifyDigestOf X ga cert f) = authVerifyDigest C a c f) :
-    outcomeOf (verifyDigestOf X ga cert (imageDigest X p)) = a.verify C c (Impl.hashStream (absP p parts regular)) := by
-  rw [hvd]
-  apply authVerifyDigest_eq
-  unfold imageDigest
-  rw [hstream, hsha]
 
 /-! ### `Bytes()` / `Open()` -/
 
@@ -915,24 +1100,21 @@ section NonVacuity
 /-- an unsigned object: empty table, directory entry (0, 0), `length` 352, three bytes of padding -/
 def p0 : authenticode.PECOFFBinary :=
   ⟨⟨0, 0⟩, ⟨7⟩, 352, [0, 0, 0], ⟨[0, 0, 0, 0, 0, 0, 0, 0]⟩, [], ⟨[0x4d, 0x5a]⟩, ⟨[9, 9]⟩⟩
-/-- externals: signing yields `[1, 2, 3]`; an entry body parses unless it is empty; `verifyDigest` asks the closure it is
-    handed for the digest under algorithm 5 ONCE (passing on an error) and answers "verified" iff that digest is the
-    digest of the image (`[5, 0xaa]`: the digest external puts the algorithm in front of the bytes, the image's hash
-    input is `[0xaa]`) and the entry starts with the first byte of the certificate's `Raw` -/
+/-- the digest that `X0`'s digest external answers for algorithm `alg` on the image's hash input `[0xaa]`: 32 bytes -/
+def dig0 (alg : UInt8) : List UInt8 := List.replicate 31 alg ++ [0xaa]
+/-- externals: signing yields `[1, 2, 3]`; an entry body parses unless it is empty, as a value that names SHA-256, embeds
+    `dig0 5` (the digest of the image under SHA-256: the digest external puts 31 copies of the algorithm in front of the
+    bytes, the image's hash input is `[0xaa]`) and holds a PKCS#7 over the entry body with two signer entries, naming
+    serial numbers 1 and 2; `signerinfo.verify` accepts iff the content starts with the first byte of the certificate's
+    `Raw` -/
 def X0 : authenticode.Ext :=
-  { SignAuthenticode := fun _ _ r _ => (r, [1, 2, 3], none),
-    ParseAuthenticode := fun b => (⟨⟨⟨⟩, [], [], [], ⟨⟩⟩, ⟨⟩, b⟩, if b.isEmpty then some "parse" else none),
-    Authenticode_verifyDigest := fun a c _ step s =>
-      let r := step s 5
-      (r.1, if r.2.2.isSome then (false, r.2.2) else (r.2.1 == [5, 0xaa] && a.Digest.head? == c.Raw.head?, none)),
+  { pkcs7 := { signerinfo_verify := fun _ c content => (content.head? == c.Raw.head?, none) },
+    SignAuthenticode := fun _ _ r _ => (r, [1, 2, 3], none),
+    ParseAuthenticode := fun b =>
+      (⟨⟨⟨⟩, [⟨1, [], ⟨⟩, ⟨⟨⟩, [], ⟨⟩, [], []⟩, ⟨⟩, ⟨[], 1⟩⟩, ⟨1, [], ⟨⟩, ⟨⟨⟩, [], ⟨⟩, [], []⟩, ⟨⟩, ⟨[], 2⟩⟩], b, [], ⟨⟩⟩,
+        ⟨pkcs7.OIDDigestAlgorithmSHA256, ⟨⟩⟩, dig0 5⟩, if b.isEmpty then some "parse" else none),
     makeSectionReader := fun _ => ⟨[0xaa]⟩,
-    crypto_Hash_Sum := fun alg bs => alg.toUInt8 :: bs }
-/-- `X0.verifyDigest` reaches the state of the closure only by calling it (the hypothesis `CallsOnly` is satisfiable) -/
-theorem X0_callsOnly : CallsOnly X0 := by
-  intro a c σ step f I s hs hstep
-  have h := hstep s 5 hs
-  refine ⟨h.1, ?_⟩
-  simp only [X0, verifyDigestOf, h.2]
+    crypto_Hash_Sum := fun alg bs => List.replicate 31 alg.toUInt8 ++ bs }
 def certA : X509Cert := ⟨[1], [], [], 1⟩
 def certB : X509Cert := ⟨[5], [], [], 2⟩
 
@@ -952,43 +1134,34 @@ example : (authenticode.PECOFFBinary.Sign X0 p0 ⟨0⟩ certA).1.Bytes =
   decide +kernel
 /-- the closure: the first call hashes and stores, the second answers from the map and leaves it as it is; another
     algorithm gets its own entry -/
-example : authenticode.PECOFFBinary.Verify.imageDigest X0 p0 [] 5 = ([(5, [5, 0xaa])], [5, 0xaa], none) ∧
-    authenticode.PECOFFBinary.Verify.imageDigest X0 p0 [(5, [5, 0xaa])] 5 = ([(5, [5, 0xaa])], [5, 0xaa], none) ∧
-    authenticode.PECOFFBinary.Verify.imageDigest X0 p0 [(5, [5, 0xaa])] 7 =
-      ([(7, [7, 0xaa]), (5, [5, 0xaa])], [7, 0xaa], none) ∧
-    imageDigest X0 p0 5 = ([5, 0xaa], none) := by decide +kernel
+example : authenticode.PECOFFBinary.Verify.imageDigest X0 p0 [] 5 = ([(5, dig0 5)], dig0 5, none) ∧
+    authenticode.PECOFFBinary.Verify.imageDigest X0 p0 [(5, dig0 5)] 5 = ([(5, dig0 5)], dig0 5, none) ∧
+    authenticode.PECOFFBinary.Verify.imageDigest X0 p0 [(5, dig0 5)] 7 =
+      ([(7, dig0 7), (5, dig0 5)], dig0 7, none) ∧
+    imageDigest X0 p0 5 = (dig0 5, none) := by decide +kernel
 /-- a map that does NOT satisfy the invariant is answered from (why `MemoOk` is a hypothesis of `C03g_imageDigest_memo`;
     `Verify` starts from the empty map) -/
 example : (authenticode.PECOFFBinary.Verify.imageDigest X0 p0 [(5, [0])] 5).2 = ([0], none) := by decide +kernel
 /-- two entries, neither by B: the map the second entry is handed holds the digest that the first one asked for -/
 example : verifyFrom X0 p0 certB [newEntry [1, 2, 3], newEntry [1]] [] =
-      verifyFrom X0 p0 certB [newEntry [1]] [(5, [5, 0xaa])] ∧
+      verifyFrom X0 p0 certB [newEntry [1]] [(5, dig0 5)] ∧
     verifyFrom X0 p0 certB [newEntry [1, 2, 3], newEntry [1]] [] = (false, some "ErrNoValidSignatures") := by
   decide +kernel
-/-- `CallsOnly` CANNOT BE DROPPED from `C03g_verify`: a Lean function of the field's type that recognises the state type
-    and swaps in a map of its own making before it calls the closure (no Go function can do that: it has no access to
-    the closure's variables) makes the signed image fail although the formula over the unmemoised digest function says
-    "verified" -/
-noncomputable def badVerifyDigest (a : authenticode.Authenticode) (c : X509Cert) (σ : Type)
-    (step : σ → crypto.Hash → σ × List UInt8 × GoErr) (s : σ) : σ × Bool × GoErr :=
-  have : Decidable (σ = Memo) := Classical.propDecidable _
-  if h : σ = Memo then X0.Authenticode_verifyDigest a c σ step (cast h.symm ([(5, [0])] : Memo))
-  else X0.Authenticode_verifyDigest a c σ step s
-noncomputable def Xbad : authenticode.Ext := { X0 with Authenticode_verifyDigest := badVerifyDigest }
-theorem unit_ne_memo : ¬ (Unit = Memo) := by
-  intro h
-  have key : ∀ (α : Type), Unit = α → ∀ a b : α, a = b := by
-    intro α h; subst h; intro a b; rfl
-  exact absurd (key Memo h [] [(5, [])]) (by decide)
-example :
-    verifyFrom Xbad p0 certA [newEntry [1, 2, 3]] [] = (false, some "ErrNoValidSignatures") ∧
-    ([newEntry [1, 2, 3]].findSome? (entryVerdict Xbad (imageDigest Xbad p0) certA)).getD
-      (false, some "ErrNoValidSignatures") = (true, none) := by
-  constructor
-  · simp only [verifyFrom, Xbad, badVerifyDigest, dif_pos, cast_eq]
-    decide +kernel
-  · simp only [List.findSome?_cons, entryVerdict, verifyDigestOf, Xbad, badVerifyDigest, dif_neg unit_ne_memo]
-    decide +kernel
+/-- the five cases of `verifyDigest` on the closure of `p0` (`C03g_verifyDigest`), the map it leaves in front: another
+    algorithm and a digest of the wrong length leave the map EMPTY (the closure is not called); a wrong digest and the
+    two PKCS#7 verdicts leave the digest under SHA-256 in it -/
+def a0 : authenticode.Authenticode := (X0.ParseAuthenticode [1, 2, 3]).1
+def vd0 (a : authenticode.Authenticode) (c : X509Cert) : Memo × Bool × GoErr :=
+  authenticode.Authenticode.verifyDigest X0.pkcs7 a c Memo (authenticode.PECOFFBinary.Verify.imageDigest X0 p0) []
+example : vd0 ⟨a0.Pkcs, ⟨[1, 2], ⟨⟩⟩, a0.Digest⟩ certA = ([], false, some "errors.New") := by decide +kernel
+example : vd0 ⟨a0.Pkcs, a0.Algid, [5, 0xaa]⟩ certA = ([], false, some "errors.New") := by decide +kernel
+example : vd0 ⟨a0.Pkcs, a0.Algid, dig0 4⟩ certA = ([(5, dig0 5)], false, some "errors.New") := by decide +kernel
+example : vd0 a0 certA = ([(5, dig0 5)], true, none) := by decide +kernel
+example : vd0 a0 certB = ([(5, dig0 5)], false, none) := by decide +kernel
+/-- the exported `(*Authenticode).Verify` on a reader that delivers the hash input / something else -/
+example : authenticode.Authenticode.Verify X0 (X0.ParseAuthenticode [1, 2, 3]).1 certA [0xaa] = ([], true, none) ∧
+    authenticode.Authenticode.Verify X0 (X0.ParseAuthenticode [1, 2, 3]).1 certA [0xab] =
+      ([], false, some "errors.New") := by decide +kernel
 /-- `Verify`: no signatures; signed by A; the second of two entries decides for B; a failed signing changes nothing -/
 example : authenticode.PECOFFBinary.Verify 1 X0 p0 certA = (false, some "ErrNoSignatures") := by decide +kernel
 example : authenticode.PECOFFBinary.Verify 17 X0 (p0.AppendSignature [1, 2, 3]).1 certA = (true, none) ∧
@@ -1035,7 +1208,7 @@ def pTwo : authenticode.PECOFFBinary :=
             certTable := [9, 0, 0, 0, 0, 2, 2, 0, 7, 0, 0, 0, 0, 0, 0, 0] ++ [9, 0, 0, 0, 0, 2, 2, 0, 1, 0, 0, 0, 0, 0, 0, 0] }
 example : authenticode.PECOFFBinary.Verify 33 X0 pTwo certA = (true, none) ∧
     authenticode.PECOFFBinary.Verify 33
-      { X0 with ParseAuthenticode := fun b => (⟨⟨⟨⟩, [], [], [], ⟨⟩⟩, ⟨⟩, b⟩, if b == [7] then some "parse" else none) }
+      { X0 with ParseAuthenticode := fun b => ((X0.ParseAuthenticode b).1, if b == [7] then some "parse" else none) }
       pTwo certA = (false, some "fmt.Errorf") := by decide +kernel
 
 end NonVacuity
@@ -1058,6 +1231,12 @@ end GoUefi.C03
 #print axioms GoUefi.C03.C03g_sign_ok
 #print axioms GoUefi.C03.C03g_imageDigest_step
 #print axioms GoUefi.C03.C03g_imageDigest_memo
+#print axioms GoUefi.C03.C03g_verifyDigest
+#print axioms GoUefi.C03.C03g_verifyDigest_callsOnly
+#print axioms GoUefi.C03.verifyDigestOf_true_iff
+#print axioms GoUefi.C03.verifyDigestOf_false_iff
+#print axioms GoUefi.C03.entryVerdict_none_iff
+#print axioms GoUefi.C03.C03g_authenticode_verify
 #print axioms GoUefi.C03.C03g_verify_threaded
 #print axioms GoUefi.C03.C03g_verify
 #print axioms GoUefi.C03.C03g_verify_true_iff
@@ -1065,7 +1244,6 @@ end GoUefi.C03
 #print axioms GoUefi.C03.C03g_verify_first_unparsable
 #print axioms GoUefi.C03.C03g_verify_refines
 #print axioms GoUefi.C03.C03g_verifyDigest_model
-#print axioms GoUefi.C03.X0_callsOnly
 #print axioms GoUefi.C03.C03g_bytes
 #print axioms GoUefi.C03.C03g_bytes_tail
 #print axioms GoUefi.C03.C03g_bytes_refines
